@@ -89,14 +89,14 @@ def gen_type(rng, idx):
     generic = list(rng.choice(GENERIC_SHAPES))
     if rng.random() < 0.55:
         body = gen_fields(rng, generic, 8)
-        t = {"name": "S%d" % idx, "enum": False, "generic": generic, "where": rng.random() < 0.4, "attrs": rng.random() < 0.3, "variants": [dict(body, name=None, ignored=False)]}
+        t = {"name": "S%d" % idx, "enum": False, "generic": generic, "where": rng.random() < 0.4, "attrs": rng.choice([0, 0, 0, 1, 2, 2, 3]), "variants": [dict(body, name=None, ignored=False)]}
     else:
         nv = rng.randint(1, 4)
         vs = []
         for k in range(nv):
             b = gen_fields(rng, generic, 3)
             vs.append(dict(b, name="V%d" % k, ignored=rng.random() < 0.25))
-        t = {"name": "E%d" % idx, "enum": True, "generic": generic, "where": rng.random() < 0.4, "attrs": rng.random() < 0.3, "variants": vs}
+        t = {"name": "E%d" % idx, "enum": True, "generic": generic, "where": rng.random() < 0.4, "attrs": rng.choice([0, 0, 0, 1, 2, 2, 3]), "variants": vs}
     fix_generics(t)
     return t
 
@@ -149,9 +149,13 @@ def fields_src(v):
     out = []
     for i, f in enumerate(v["fields"]):
         attr = "#[rust_cc(ignore)] " if f["ignored"] else ""
-        if v.get("attrs") and i % 2 == 0:
-            # unrelated attributes on fields must not disturb the derive
-            attr = "#[allow(dead_code)] /** doc */ " + attr
+        a = v.get("attrs") or 0
+        if a and i % 2 == 0:
+            # unrelated attributes before and/or after the rust_cc one must not disturb the derive
+            if a in (1, 3):
+                attr = "#[allow(dead_code)] /** doc */ " + attr
+            if a in (2, 3):
+                attr = attr + "/** doc */ #[allow(dead_code)] "
         if v["kind"] == "named":
             out.append("%sf%d: %s" % (attr, i, f["ty"]))
         else:
@@ -166,10 +170,13 @@ def fields_src(v):
 def type_src(t, extra_attr="", derive="Trace, Finalize"):
     g, where = generics_decl(t)
     head = "#[derive(%s)]\n%s" % (derive, extra_attr)
-    if t.get("attrs"):
+    a = t.get("attrs") or 0
+    if a in (1, 3):
         head = "/// generated type\n#[allow(dead_code)]\n" + head
+    if a in (2, 3):
+        head = head + "/// generated type\n#[repr(C)]\n"
     for v in t["variants"]:
-        v["attrs"] = bool(t.get("attrs"))
+        v["attrs"] = a
     if not t["enum"]:
         v = t["variants"][0]
         body = fields_src(v)
@@ -179,6 +186,10 @@ def type_src(t, extra_attr="", derive="Trace, Finalize"):
     vs = []
     for v in t["variants"]:
         attr = "#[rust_cc(ignore)] " if v["ignored"] else ""
+        if a in (2, 3):
+            attr = attr + "/** doc */ #[allow(dead_code)] "
+        if a in (1, 3):
+            attr = "/** doc */ " + attr
         vs.append("    %s%s%s," % (attr, v["name"], fields_src(v)))
     return "%spub enum %s%s%s {\n%s\n}\n" % (head, t["name"], g, where, "\n".join(vs))
 
